@@ -2,7 +2,7 @@
 import importlib
 import sys
 
-TRANSLATORS = ["gen_registry", "gen_proto", "gen_clientapi"]
+TRANSLATORS = ["gen_registry", "gen_proto", "gen_clientapi", "gen_constants"]
 
 
 def run_all():
